@@ -13,7 +13,7 @@ ROOTS = (T + "timezone::TimeZone::from_tz_data", T + "timezone::TimeZone::from_p
 def run(chk, tier):
     P = Prog("default")
     chk.configs.add("default")
-    for r in (r_absint, r_block_order, r_header_order, r_rule_boxes, r_validate, r_validate_cover, r_record_layout, r_capacity, r_header_consts):
+    for r in (r_absint, r_block_order, r_header_order, r_rule_boxes, r_validate, r_validate_cover, r_record_layout, r_offset_sign, r_capacity, r_header_consts):
         chk.guarded(r, P, tier)
     chk.assume("that every conforming file is accepted and decoded to exactly the written transitions/types/rule is not decided (value-level)")
     return {
@@ -206,6 +206,49 @@ def _show(l):
     if l[1] or not parts:
         parts.append(str(l[1]))
     return "+".join(parts)
+
+
+def _leaves_under_mul(t, is_leaf, is_factor, under=False, out=None):
+    """for every occurrence of a leaf in term t: was some enclosing multiplication's other operand a `factor` term?"""
+    if out is None:
+        out = []
+    if not isinstance(t, tuple) or not t:
+        return out
+    if is_leaf(t):
+        out.append(under)
+        return out
+    if t[0] == "bin" and t[1].startswith("Mul"):
+        a, b = t[2], t[3]
+        fa = any(is_factor(x) for x in walk_terms(a))
+        fb = any(is_factor(x) for x in walk_terms(b))
+        _leaves_under_mul(a, is_leaf, is_factor, under or fb, out)
+        _leaves_under_mul(b, is_leaf, is_factor, under or fa, out)
+        return out
+    for x in t[1:]:
+        if isinstance(x, tuple):
+            if x and isinstance(x[0], str):
+                _leaves_under_mul(x, is_leaf, is_factor, under, out)
+            else:
+                for y in x:
+                    _leaves_under_mul(y, is_leaf, is_factor, under, out)
+    return out
+
+
+def r_offset_sign(chk, P, tier):
+    """POSIX `[+-]hh[:mm[:ss]]`: the sign applies to the whole offset. In the value parse_offset returns, each of hour, minute and second is (inside) an
+    operand of a multiplication by the sign (either sign * (h*3600 + m*60 + s) or the distributed form)"""
+    chk.rule("SHAPE.offset_sign", "parse_offset multiplies every component (hour, minute, second) by the sign", floor=3)
+    fn = T + "rule::parse_offset"
+    oks = [p_ for p_ in Sym(P, fn).paths() if p_.end[0] == "return" and result_variant(p_.ret)[0] == "Ok"]
+    if not oks:
+        raise AnchorLost("parse_offset: no Ok path")
+
+    def comp(i):
+        return lambda t: t[0] == "field" and t[2] == i and t[1][0] == "field" and t[1][2] == 0 and any(is_call(x) and str(x[1]).endswith("parse_signed_hhmmss") for x in walk_terms(t[1]))
+    val = oks[0].ret[4][0]
+    for i, name in ((1, "hour"), (2, "minute"), (3, "second")):
+        occ = _leaves_under_mul(val, comp(i), comp(0))
+        chk.expect(bool(occ) and all(occ), name, "the %s component of a POSIX TZ offset is %s in parse_offset's result" % (name, "not multiplied by the sign" if occ else "not used"), loc=P.loc(fn))
 
 
 def r_validate_cover(chk, P, tier):
